@@ -209,12 +209,89 @@ def scn_clients(ctx):
     return True
 
 
+def scn_cancelrace(ctx):
+    """A client cancels a pending future of the outermost layer while another actor cancels the
+    work below it: the TimeoutExecutor thread at the deadline, CancelOnShutdownExecutor.shutdown()
+    from another thread, or done-callbacks that cancel a sibling future.  Every call must return."""
+    import threading
+    p = ctx.params
+    layers, rival = p["layers"], p["rival"]
+    ev = ctx.ev
+    eps = ctx.eps
+    ex, chain = build(layers, "pool", {}, workers=1)
+    gate = threading.Event()
+
+    def blocker():
+        gate.wait(LIMIT)
+        return 0
+
+    chain[0].submit(blocker)  # the only worker is busy: everything submitted next stays pending
+    t0 = sched.now()
+    f = ex.submit(lambda: 1)
+    g = ex.submit(lambda: 2)
+    res = {}
+    ths = []
+    if rival == "sibling":
+        f.add_done_callback(lambda _f: res.__setitem__("g-from-cb", g.cancel()))
+        g.add_done_callback(lambda _f: res.__setitem__("f-from-cb", f.cancel()))
+
+        def c1():
+            sched.point()
+            res["f"] = f.cancel()
+
+        def c2():
+            sched.point()
+            res["g"] = g.cancel()
+        ths = [spawn("cancel-f", c1), spawn("cancel-g", c2)]
+    elif rival == "timeout":
+        # the client's cancel lands within a few clock ticks of the 0.5 s deadline (symbolic instant)
+        w = ctx.real("w", lo=0)
+        ctx.assume(w >= t0 + 0.5 - 2 * eps)
+        ctx.assume(w <= t0 + 0.5 + 14 * eps)
+
+        def c1():
+            sched.vsleep_until(w)
+            res["f"] = f.cancel()
+        ths = [spawn("cancel-f", c1)]
+    elif rival == "shutdown":
+        def c1():
+            sched.point()
+            res["f"] = f.cancel()
+
+        def c2():
+            sched.point()
+            ex.shutdown(wait=False)
+            res["shutdown"] = True
+        ths = [spawn("cancel-f", c1), spawn("shutdown", c2)]
+    for t in ths:
+        t.join(LIMIT)
+    for t in ths:
+        ctx.check("client-call-returns", not t.is_alive(), "%s is blocked (%s, rival %s)" % (t.name, "+".join(layers), rival))
+    if any(t.is_alive() for t in ths):
+        return
+    ctx.reach("cancelrace-" + rival)
+    gate.set()
+    if rival != "shutdown":
+        # a refused cancel leaves the callable to run once the worker is free
+        wait_done(f, sched.now() + LIMIT)
+        ctx.check("future-finishes-after-cancel-race", f.done(), "f pending; cancel() returned %r" % res.get("f"))
+
+    def closer():
+        ex.shutdown(wait=True)
+
+    s_ = spawn("closer", closer)
+    s_.join(LIMIT)
+    ctx.check("shutdown-returns", not s_.is_alive(), "shutdown(wait=True) blocked after the cancel race")
+    return True
+
+
 SINGLE = ["map", "flat_map", "retry", "poll", "throttle", "throttle_block", "timeout", "cancel_on_shutdown"]
 ASSUMPTIONS = ["a client call that has not returned after 400 virtual seconds (no timer of the library is longer than 30 s; stacks use timeouts of 1000 s only for TimeoutExecutor deadlines) is reported, as is any state in which no thread can run",
-               "lock-order cycles are searched by exploring schedules directly (preemption-bounded); the SMT-based prediction over lock traces (engine L of the design) is not built"]
+               "lock-order cycles: explored directly (preemption-bounded) and, per explored execution, predicted from its lock trace by engine L (z3 query over event orders, then a directed replay); only a deadlock reproduced on the real code is reported",
+               "cancel races: the client's cancel() is issued at a symbolic instant within [-2, +14] clock ticks of the TimeoutExecutor deadline, or concurrently with shutdown() / a sibling's callback"]
 BOUNDS_TEXT = {"quick": "nested submit from callable/map fn/poll fn/done-callback on every single layer over sync and thread_pool(2) (P<=1); 3-thread client programs over every single layer x 2 bases (P<=1 sync, P=0 pool)",
                "thorough": "P<=2; two-layer stacks"}
-MUST_REACH = {"*": ["nested-ok", "clients-ran", "timeout-fired-nested"]}
+MUST_REACH = {"*": ["nested-ok", "clients-ran", "timeout-fired-nested", "cancelrace-sibling", "cancelrace-timeout", "cancelrace-shutdown"]}
 BUDGET = {"quick": 150.0, "thorough": 600.0}
 
 
@@ -237,6 +314,14 @@ def plan(tier, seed):
                 items.append(dict(scenario="nested", params=dict(layers=[ln], base=base, site="callable", extra_client=True), bounds=dict(lpredict=True, P=1 if q else 2)))
         for ln in SINGLE:
             items.append(dict(scenario="clients", params=dict(layers=[ln], base=base, prog="A"), bounds=dict(lpredict=True, P=0 if q else 1)))
+    # cancel of an outer-layer future racing with a cancel of the work below it by someone else
+    items.append(dict(scenario="cancelrace", params=dict(layers=["map"], rival="sibling"), bounds=dict(lpredict=True, P=1 if q else 2)))
+    items.append(dict(scenario="cancelrace", params=dict(layers=["timeout_short", "map"], rival="timeout"), bounds=dict(lpredict=True, P=1 if q else 2)))
+    items.append(dict(scenario="cancelrace", params=dict(layers=["map", "cancel_on_shutdown", "map"], rival="shutdown"), bounds=dict(lpredict=True, P=1 if q else 2)))
+    if not q:
+        items.append(dict(scenario="cancelrace", params=dict(layers=["throttle"], rival="sibling"), bounds=dict(lpredict=True, P=1)))
+        items.append(dict(scenario="cancelrace", params=dict(layers=["retry", "timeout_short", "map"], rival="timeout"), bounds=dict(lpredict=True, P=1)))
+        items.append(dict(scenario="cancelrace", params=dict(layers=["throttle", "cancel_on_shutdown", "flat_map"], rival="shutdown"), bounds=dict(lpredict=True, P=1)))
     if not q:
         for pr in (["retry", "map"], ["map", "retry"], ["throttle", "retry"], ["poll", "retry"], ["retry", "cancel_on_shutdown"], ["timeout", "retry"], ["throttle_block", "poll"]):
             for base in ("sync", "pool"):
